@@ -36,19 +36,19 @@ func newEngine() *Engine {
 	prog, _ := ssautil.AllPackages(pkgs, ssa.InstantiateGenerics|ssa.GlobalDebug)
 	prog.Build()
 	e := &Engine{
-		prog:      prog,
-		pkgs:      map[string]*ssa.Package{},
-		repoPkgs:  map[string]bool{repoMod + "/internal/model": true, repoMod + "/internal/parser": true, repoMod + "/cmd": true},
-		layouts:   map[types.Type][]slot{},
-		typeIDs:   map[string]int64{},
-		typeByID:  map[int64]types.Type{},
-		obls:      map[string]*Obligation{},
-		assumed:   map[string]bool{},
-		siteNames: map[ssa.Instruction]string{},
-		loopInfo:  map[*ssa.Function]*loopAnalysis{},
+		prog:         prog,
+		pkgs:         map[string]*ssa.Package{},
+		repoPkgs:     map[string]bool{repoMod + "/internal/model": true, repoMod + "/internal/parser": true, repoMod + "/cmd": true},
+		layouts:      map[types.Type][]slot{},
+		typeIDs:      map[string]int64{},
+		typeByID:     map[int64]types.Type{},
+		obls:         map[string]*Obligation{},
+		assumed:      map[string]bool{},
+		siteNames:    map[ssa.Instruction]string{},
+		loopInfo:     map[*ssa.Function]*loopAnalysis{},
 		globalPlaces: map[string]*Term{},
-		arrSpecs:  map[*Term]func(*Term) Value{},
-		arrFacts:  map[*Term]func(*State, *Term){},
+		arrSpecs:     map[*Term]func(*Term) Value{},
+		arrFacts:     map[*Term]func(*State, *Term){},
 	}
 	for _, p := range prog.AllPackages() {
 		e.pkgs[p.Pkg.Path()] = p
@@ -138,11 +138,11 @@ func (e *Engine) runInits() {
 }
 
 type FuncReport struct {
-	Func   string
-	Exits  int
-	Paths  int
-	Err    string
-	Secs   float64
+	Func     string
+	Exits    int
+	Paths    int
+	Err      string
+	Secs     float64
 	Contract bool
 }
 
@@ -320,7 +320,6 @@ func (e *Engine) discharge(budget time.Duration, workers int) {
 		o.Backend = strings.Join(bs, "+")
 	}
 }
-
 
 // substituteParamEqualities: a precondition of the form `param-slot == term` (e.g. the dynamic
 // type tag given by treenode(x, rule)) is applied as a substitution on the parameter value so that
